@@ -155,6 +155,27 @@ func genMapSession(r *rand.Rand, i int) J {
 	if n <= 3 {
 		c["anyorder"] = n
 	}
+	if i%4 == 3 {
+		// a map whose values are arrays and maps, several of them equal - and, in the Go bindings, one shared value
+		// ("@share"); the whole map, its pairs and its values are turned into text
+		vals := []J{vArr(vInt(1), vInt(2)), vMap("k", vInt(1)), vArr(), vArr(vStr("x"))}
+		pairs3 := []any{}
+		for k := 0; k < n; k++ {
+			pairs3 = append(pairs3, []any{bs(string(rune('a' + k))), vals[r.Intn(len(vals))]})
+		}
+		c["envs"] = []any{[]any{[]any{bs("m"), J{"k": "map", "v": pairs3}}, []any{bs("s"), vStr("v")}}}
+		c["reprs"] = []any{J{"@share": "1"}}
+		c["templates"] = []any{
+			[]any{nObj(eVar("m"))},
+			mapLoop("m"),
+			[]any{nObj(eFilter(eVar("m"), "join", eLit(vStr(","))))},
+			[]any{nObj(eFilter(eVar("m"), "append", eVar("s")))},
+			[]any{J{"t": "for", "tag": "for", "var": bs("p"), "coll": eVar("m"), "body": []any{nObj(eVar("p")), nText(";")}}},
+			[]any{nObj(eFilter(eFilter(eVar("m"), "reverse"), "join"))},
+		}
+		delete(c, "anyorder")
+		return c
+	}
 	if i%3 != 0 {
 		// the same session over a map with integer keys (map[int]any / map[any]any)
 		pairs2 := []any{}
